@@ -562,6 +562,14 @@ Fixpoint consec (l : N) (fs : list frame) : Prop :=
   | f :: r => f_lsn f = l /\ consec (l + 1) r
   end.
 
+(* the tail posture a reader must report for committed transactions [ts] followed by the
+   uncommitted frames [extra] *)
+Definition expected_tail (ts : list wtx) (extra : list frame) : tail :=
+  match extra with
+  | [] => TClean
+  | _ => match last_commit_lsn (map w_commit ts) with Some l => TAfter l | None => TAll end
+  end.
+
 (* sizes for the byte-prefix statements *)
 Definition payload_small (r : lrec) : Prop := lenN (lrec_payload r) < 2 ^ 64.
 Definition tx_size (t : wtx) : nat := length (flat_map enc_lrec (tx_recs t)).
@@ -709,3 +717,27 @@ Definition rle (l : list summary) : list (summary * N) := rev (rle_rev [] l).
 (* every byte-length prefix of a segment, recovered *)
 Definition prefix_results (H : bytes -> N) (sid : N) (seg : bytes) : list (summary * N) :=
   rle (map (fun k => summarize (recover_segment H sid (firstn k seg))) (seq 0 (S (length seg)))).
+
+(* ------------------------------------------------------------------ damage / edits (tie + theorems) *)
+Definition flip_bit (bs : bytes) (i : N) : bytes :=
+  let j := N.to_nat (i / 8) in
+  firstn j bs ++ match skipn j bs with
+                 | [] => []
+                 | b :: r => N.lxor b (2 ^ (i mod 8)) :: r
+                 end.
+Definition zero_range (bs : bytes) (off len : N) : bytes :=
+  let o := N.to_nat off in
+  let n := Nat.min (N.to_nat len) (length bs - o) in
+  firstn o bs ++ repeat 0 n ++ skipn (o + n) bs.
+
+Definition remove_nth {A} (i : nat) (l : list A) : list A := firstn i l ++ skipn (S i) l.
+Definition dup_nth {A} (i : nat) (l : list A) : list A :=
+  firstn i l ++ match skipn i l with [] => [] | x :: r => x :: x :: r end.
+Definition swap_nth {A} (i : nat) (l : list A) : list A :=
+  firstn i l ++ match skipn i l with x :: y :: r => y :: x :: r | r => r end.
+
+(* recover_from_frames_and_commits on the frames / commit markers of a segment after an edit *)
+Definition recover_fc_edited (H : bytes -> N) (bs : bytes)
+  (ef : list frame -> list frame) (ec : list commit -> list commit) : res (list rtx * tail) :=
+  let* (rs, _) := read_segment H bs in
+  recover_fc H (ef (frames_of rs)) (ec (commits_of rs)).
